@@ -123,6 +123,11 @@ where
             }
         }
 
+        // Verification hook: the pipeline thread may run `mark_as_done` right here, between the
+        // check above and the wait registration below. Compiled only with the verification cfg.
+        #[cfg(p2panda_p2panda_verif)]
+        p2panda_core::verif::yield_point("task.ready.between_check_and_wait").await;
+
         // If not, we wait until we got notified that an result exists.
         self.ready_signal.notified().await;
 
